@@ -17,12 +17,10 @@ open MCHap MCHap.Trace
 abbrev Post := List (List Hap × Rat)
 
 /-- posterior probability that `h` occurs (at any copy number) -/
-def occurrence (post : Post) (h : Hap) : Rat :=
-  ((post.filter (fun gp => decide (h ∈ gp.1))).map (·.2)).sum
+def occurrence (post : Post) (h : Hap) : Rat := occurrenceOf post h
 
 /-- posterior dosage (expected copy number) of `h` -/
-def dosageWeight (post : Post) (h : Hap) : Rat :=
-  (post.map (fun gp => gp.2 * ((gp.1.count h : Nat) : Rat))).sum
+def dosageWeight (post : Post) (h : Hap) : Rat := dosageOf post h
 
 /-- `np.all(h == 0)` -/
 def isRef (h : Hap) : Bool := h.all (fun a => decide (a = 0))
@@ -85,11 +83,18 @@ def gpPairs (post : Post) (labels : List (Hap × Nat)) : List (Nat × Rat) :=
     | [] => none   -- ploidy 0: not reachable (`alleles[0]` would raise)
     | x :: _ => if x < 0 then none else some (genotypeIndex (a.map Int.toNat), gp.2))
 
-/-- `_genotype_posterior_as_array(posterior, labels)`: the array is sized from **`len(labels)`** (candidate
-    defect F3: with the reference masked the labels are `1..k`, one fewer than the record's alleles);
-    `none` = `IndexError` -/
-def genotypePosteriorAsArray (post : Post) (labels : List (Hap × Nat)) (ploidy : Nat) : Option (List Rat) :=
-  scatter (cwr labels.length ploidy) (gpPairs post labels)
+/-- `_genotype_posterior_as_array(posterior, labels, n_alleles=None)`: `count_unique_genotypes(n_alleles, ploidy)`
+    slots, `n_alleles` defaulting to `len(labels)`; the probability of every fully labelled genotype is written at
+    the VCF index of its sorted allele numbers; `none` = `IndexError` (an index beyond the array) -/
+def genotypePosteriorAsArray (post : Post) (labels : List (Hap × Nat)) (ploidy : Nat) (nAlleles : Option Nat) :
+    Option (List Rat) :=
+  scatter (cwr (nAlleles.getD labels.length) ploidy) (gpPairs post labels)
+
+/-- the GP of one sample as `call_sample_genotypes` computes it: label map without the reference when it is masked,
+    `n_alleles = len(haplotypes)` = the record's allele count (the repair of defect F3; before it the array was
+    sized from `len(labels)`, one allele short on REFMASKED records) -/
+def sampleGP (post : Post) (haps : List Hap) (refCalled : Bool) (ploidy : Nat) : Option (List Rat) :=
+  genotypePosteriorAsArray post (labelsOf haps refCalled) ploidy (some haps.length)
 
 /-- the AFP / AOP assignment of `call_sample_genotypes`: one entry per listed haplotype (the reference at 0 even
     when it is masked), zero when the sample's posterior does not contain the haplotype -/
